@@ -312,3 +312,31 @@ PLANS["C11"] = {
                 need("compile_invariants_checked", 10000), need("block_hook_invariants_checked", 10000), need_set("positions", 9),
                 need_set("expr_classes", 11), need_set("sealing_kinds", 17), need_set("result_counts", 4)],
 }
+
+PLANS["C16"] = {
+    "prepare": stages.c16_float_vectors,
+    "jobs": {
+        "quick": [("", "release", 600000), ("", "dev", 60000)],
+        "thorough": [("", "release", 30000000), ("", "dev", 3000000)],
+    },
+    "rule": "4 of 5 cases: a text of 1..14 fragments (integers in every spelling up to and beyond the i128 range in decimal, 0x, 0b and "
+            "leading-zero hex with signs, '_' and injected bad digits; reals from the reference vectors; strings with every escape, "
+            "curly quotes, bad escapes, missing terminators and missing separators; bit-strings with hex digits, x/. bits, bad "
+            "characters; line and multi-line comments incl. nested markers and unterminated ones; dictionary words; multi-byte and "
+            "combining characters; every ASCII whitespace kind and non-ASCII spaces; fragments sometimes glued without separator) is "
+            "fed to Lex::next until the end or the first error: at most len+2 calls, every token starts where the previous one ended, "
+            "its text is the input slice, and kind, extent and value equal an independent reading of the documented grammar "
+            "(malformed text must be rejected, well-formed text accepted); reals are compared bit for bit with Python's float() on "
+            "20000 spellings prepared per run. 1 of 5 cases: an integer, bit-string (0..601 bits) or nested vector/map of those is "
+            "printed with format_cell (default; hex, binary and upper-case hex with prefix for non-negative integers) and read back "
+            "with eval: the value must be equal. distinct = distinct texts / values",
+    "assumptions": ["only ASCII whitespace separates tokens (non-ASCII spaces are word characters), as the lexer documents by using it",
+                    "a bit-string literal needs no separator after its closing bar; a string literal does",
+                    "a real literal is a numeric token containing '.'; spellings Python's float() rejects must be rejected, spellings of "
+                    "the strict form digits.digits[e[+-]digits] must be accepted; 1e5 (no point) is not a real literal",
+                    "hex/binary printing is only read back for non-negative values (there is no signed two's-complement reading)"],
+    "require": [need("tok:int", 100000), need("tok:real", 50000), need("tok:str", 50000), need("tok:bitstr", 50000), need("tok:comment", 20000),
+                need("tok:word", 200000), need("malformed_rejected", 100000), need("reals_checked_against_python", 50000),
+                need("roundtrip:default", 50000), need("roundtrip:hex", 5000), need("roundtrip:bin", 5000), need_set("error_kinds", 9),
+                need_set("roundtrip_value_kinds", 4)],
+}
